@@ -31,6 +31,13 @@ def config_rule(repo: Repo, rep: Report, rid: str) -> None:
     n += 1
     rep.check(isinstance(attrs, ast.Dict) and any(isinstance(k, ast.Constant) and k.value == "type" and norm(v) == fi.params[1] for k, v in zip(attrs.keys, attrs.values)),
               rid, f"{fi.key}:target", "target type stored as .type", "pointer target type is not stored as the 'type' attribute", fi.loc())
+    g0 = CFG(fi.node)
+    mkn = {x.id for x in g0.nodes if x.kind == "stmt" and node_calls(x, "_make_type")}
+    rets0 = [x for x in g0.nodes if x.kind == "stmt" and isinstance(x.ast, ast.Return)]
+    n += 1
+    rep.check(bool(mkn) and all(g0.must_pass(g0.entry.id, r.id, mkn) for r in rets0), rid, f"{fi.key}:fresh", "every return builds the pointer type from the current configuration",
+              "_make_pointer can return without building the type from self.pointer (a memo): a pointer type created before cs.pointer was changed keeps the old "
+              "width for later definitions", fi.loc())
     for qn, meth, nargs in (("Pointer._read", "_read", 2), ("Pointer._write", "_write", 2), ("Pointer.__default__", "__default__", 0)):
         f = repo.func("types/pointer.py", qn)
         calls = [c for c in walk_body(f.node.body) if isinstance(c, ast.Call) and isinstance(c.func, ast.Attribute) and c.func.attr == meth
